@@ -50,6 +50,52 @@ type hx struct {
 	prefix  string
 	fdecl   *ast.FuncDecl
 	guards  map[string]bool // variables currently known to be <= buf.Len()
+	// how the library touches a bytes.Buffer: the methods it calls on one, and the functions outside the module it
+	// hands one to (Model/Buffer.v models these and nothing else: obligation H_buffer_api)
+	bufMethods map[string]bool
+	bufSinks   map[string]bool
+}
+
+func (h *hx) recordBufferUse(c *ast.CallExpr) {
+	if h.bufMethods == nil {
+		h.bufMethods, h.bufSinks = map[string]bool{}, map[string]bool{}
+	}
+	fun := c.Fun
+	for {
+		switch f := fun.(type) {
+		case *ast.ParenExpr:
+			fun = f.X
+			continue
+		case *ast.IndexExpr:
+			fun = f.X
+			continue
+		case *ast.IndexListExpr:
+			fun = f.X
+			continue
+		}
+		break
+	}
+	var fn *gotypes.Func
+	switch f := fun.(type) {
+	case *ast.SelectorExpr:
+		fn, _ = h.info.Uses[f.Sel].(*gotypes.Func)
+		if t := h.typeOf(f.X); t != nil && isBufferType(t) {
+			h.bufMethods[f.Sel.Name] = true
+		}
+	case *ast.Ident:
+		fn, _ = h.info.Uses[f].(*gotypes.Func)
+	}
+	if fn == nil || fn.Pkg() == nil {
+		return
+	}
+	if p := fn.Pkg().Path(); p == "codec" || strings.HasSuffix(p, "/codec") || strings.HasSuffix(p, "/messages") {
+		return // the library's own functions are analysed themselves
+	}
+	for _, a := range c.Args {
+		if t := h.typeOf(a); t != nil && isBufferType(t) {
+			h.bufSinks[fn.FullName()] = true
+		}
+	}
 }
 
 func (h *hx) unk(n ast.Node, f string, a ...any) {
@@ -287,6 +333,7 @@ func (h *hx) allRefs(es []ast.Expr) []string {
 
 // a call: returns what its result may share; records parameter edges and stores made by the callee
 func (h *hx) call(c *ast.CallExpr) []string {
+	h.recordBufferUse(c)
 	// conversions
 	if tv, ok := h.info.Types[c.Fun]; ok && tv.IsType() {
 		if len(c.Args) != 1 {
@@ -891,6 +938,15 @@ func writeHelpers(root, path string) {
 		fmt.Fprintf(&sb, "  (%s, %s, %s)%s\n", coqString(m.fn), coqString(m.elem), coqStrList(m.sizes), sep)
 	}
 	sb.WriteString("].\n\n")
+	keys := func(m map[string]bool) []string {
+		var l []string
+		for k := range m {
+			l = append(l, k)
+		}
+		sort.Strings(l)
+		return l
+	}
+	fmt.Fprintf(&sb, "(* methods the library calls on a bytes.Buffer, and functions outside the module it passes one to *)\nDefinition buffer_methods : list string := %s.\nDefinition buffer_sinks : list string := %s.\n\n", coqStrList(keys(h.bufMethods)), coqStrList(keys(h.bufSinks)))
 	fmt.Fprintf(&sb, "Definition unknown_facts : list string := %s.\n", coqStrList(h.unknown))
 	if err := os.WriteFile(path, []byte(sb.String()), 0o644); err != nil {
 		panic(err)
